@@ -7,6 +7,8 @@ SEPS = {
     "SP": " ", "SP3": "   ", "TAB": "\t", "FF": " \f ", "LF": "\n", "CRLF": "\r\n", "LFLF": "\n\n  ",
     "HASH": "  # a comment with \"quotes\" END LAYER\n", "CC": " /* c-style 'comment' */ ",
     "CCML": " /* first line\n   second line END */\n", "MIX": "\t \r\n \t",
+    # comments with no white space around them (the comment alone separates the tokens)
+    "CCT": "/* tight */", "CCMLT": "/*\n*/", "HASHT": "# tight\n",
 }
 KEYWORD_ROLES = {"opener", "end", "key", "kvopen", "kvend", "projopen", "projend", "ptsopen", "ptsend"}
 BARE_OK_ROLES = {"val", "kvkey", "kvval", "cfgkey", "cfgval"}
